@@ -81,7 +81,10 @@ P_ = lambda *steps, **kw: path(list(steps), **kw)
 KEYS = [{"name": "kt", "match": P_(step("child", T_TEXT)), "use": fn("string-length", P_(step("self", T_NODE)))},
         {"name": "kn", "match": P_(step("child", T_ANY)), "use": fn("count", P_(step("child", T_NODE)))},
         {"name": "kc", "match": P_(step("child", T_ANY)), "use": P_(step("child", T_TEXT))},
-        {"name": "kp", "match": P_(step("child", T_TEXT)), "use": fn("name", P_(step("parent", T_NODE, abbr=False)))}]
+        {"name": "kp", "match": P_(step("child", T_TEXT)), "use": fn("name", P_(step("parent", T_NODE, abbr=False)))},
+        # use expressions that are node-sets of ELEMENTS: the key value is the element's string-value, which must not contain stripped text
+        {"name": "ks", "match": P_(step("child", T_ANY)), "use": P_(step("self", T_NODE))},
+        {"name": "kd", "match": P_(step("child", T_ANY)), "use": P_(step("child", T_ANY))}]
 SPEC_KEYS = [{"name": xdm.cps(k["name"]), "match": xpgen.strip_render_only(k["match"]), "use": xpgen.strip_render_only(k["use"])} for k in KEYS]
 # xsl:number instructions that count text / all nodes, run on every element (7.7 on the stripped tree)
 # (the count pattern is spelled out instead of node(): the pattern node() has its own known finding under C09)
@@ -95,7 +98,9 @@ NUMBERS = [{"level": "single", "count": _anynode()}, {"level": "multiple", "coun
 def key_observations():
     return [fn("count", fn("key", lit("kt"), num(1))), fn("key", lit("kn"), num(2)), fn("key", lit("kn"), fn("count", P_(step("child", T_NODE)))),
             fn("count", fn("key", lit("kc"), lit(" "))), fn("key", lit("kc"), lit("t")), fn("count", fn("key", lit("kp"), fn("name"))),
-            fn("key", lit("kt"), fn("string-length", P_(step("child", T_NODE, num(1))))), fn("count", fn("key", lit("kn"), num(0)))]
+            fn("key", lit("kt"), fn("string-length", P_(step("child", T_NODE, num(1))))), fn("count", fn("key", lit("kn"), num(0))),
+            fn("count", fn("key", lit("ks"), fn("string", P_(step("self", T_NODE))))), fn("key", lit("kd"), fn("string", P_(step("child", T_ANY, num(1))))),
+            fn("count", fn("key", lit("kd"), P_(step("child", T_ANY)))), fn("key", lit("ks"), fn("normalize-space"))]
 
 
 def render(decls, obs, numbers=()):
@@ -168,7 +173,7 @@ def run(res, tier, seed):
     for k in range(ncases):
         d = rng.randrange(ndocs)
         decls = gen_decls(rng)
-        obs = rng.sample(allobs, 7) + rng.sample(keyobs, 2)
+        obs = rng.sample(allobs, 7) + rng.sample(keyobs, 3)
         numbers = rng.sample(NUMBERS, 2)
         cdir = os.path.join(wd, "case%d" % k); os.makedirs(cdir)
         for fn_, txt in render(decls, obs, numbers).items():
@@ -245,7 +250,7 @@ def run(res, tier, seed):
     res.cov["distinct_nontrivial"] = len({vlib.canon_hash([e["doc"], e["decls"], e.get("text"), e.get("ctx")]) for e in events if e["sample"] in nt})
     res.cov["rule"] = ("seeded documents (depth <= 3, whitespace-only text before/between/after children and next to comments/PIs) x 1-4 strip/preserve declarations (*, QNames, "
                        "conflicting, spread over an import tree main > B > A > A1 with conflicts between sibling and nested imports) x 7 of 25 observation expressions evaluated from every element and the root (child/descendant/sibling/following/preceding axes, "
-                       "position/last, count, string values, sum, name) + 2 of 8 key() observations over four keys whose match/use see text nodes + 2 of 5 xsl:number "
+                       "position/last, count, string values, sum, name) + 3 of 12 key() observations over six keys whose match / use see text nodes or string-values of elements + 2 of 5 xsl:number "
                        "instructions (single/multiple/any counting node() / text()) on every element + xsl:copy-of of the whole document; non-trivial = the declarations strip at least one node of that document; "
                        "distinct by (document, declarations, observation, context)")
     for ev in [e for e in events if e["e"] == "Obs"][:: max(1, len(events) // 4)][:4]:
